@@ -5,7 +5,7 @@ from common import from_replay, to_replay  # noqa: F401
 
 PID = "C04"
 COQ_MODULE = "Prop_C04"
-THEOREMS = ['C04_every_history', 'C04_leaves_get_ptrs', 'C04_lock_all_or_wait', 'C04_try_all_or_nothing', 'C04_scoped_call', "C04_every_schedule_guard_holds_exactly"]
+THEOREMS = ['C04_every_history', 'C04_leaves_get_ptrs', 'C04_lock_all_or_wait', 'C04_try_all_or_nothing', 'C04_scoped_call', "C04_every_schedule_guard_holds_exactly", "C04_every_schedule_try_never_waits"]
 CASE_MODULES = ["Pf_Hist", "Pf_Hist4", "Monitors", "Conc", "BMonitors"]
 CHECK_WITHOUT_PROOF = True
 SHRINK_GUARD = 0      # which of the booleans evaluated with the verdict certifies the theorem's hypotheses
